@@ -295,6 +295,56 @@ func checkC02(w *World) {
 	}
 	w.floor(P, "R02.5", 2)
 
+	// R02.7 every candidate is examined, result keeps the incoming order
+	docRule(P, "R02.7", "D+F", "the predicate handler examines every candidate: the only exits of its loop over the node-set are the loop bound and error returns (no break after a hit: `[n]` with a node-dependent n may hold for several candidates); the node-set it stores is the accumulator it appended to, in the order of the incoming node-set (not re-sorted: the second predicate of a reverse-axis step still counts in proximity order).")
+	{
+		loops := loopBlocks(h.Fn)
+		early := ""
+		for _, b := range h.Fn.Blocks {
+			if !loops[b] {
+				continue
+			}
+			isHeader := false
+			if len(b.Instrs) > 0 {
+				if ifi, ok := b.Instrs[len(b.Instrs)-1].(*ssa.If); ok {
+					if bo, ok := ifi.Cond.(*ssa.BinOp); ok && bo.Op == token.LSS && isLenOf(bo.Y, nil) {
+						isHeader = true
+					}
+				}
+			}
+			if isHeader {
+				continue
+			}
+			for _, s := range b.Succs {
+				if loops[s] {
+					continue
+				}
+				endsInReturn := false
+				for _, in := range s.Instrs {
+					if ret, ok := in.(*ssa.Return); ok && len(ret.Results) == 1 && !isNilConst(ret.Results[0]) {
+						endsInReturn = true
+					}
+				}
+				if !endsInReturn {
+					early = w.pos(b.Instrs[len(b.Instrs)-1].Pos())
+				}
+			}
+		}
+		w.check(P, "R02.7", "predicate loop examines every candidate", h.Fn.Pos(), early == "", "early exit from the candidate loop: "+orNone(early))
+		for _, st := range resultStores(h.Fn, r) {
+			v := stripConv(st.Val)
+			_, isPhi := v.(*ssa.Phi)
+			isAppend := false
+			if c, ok := v.(*ssa.Call); ok {
+				if b, ok := c.Call.Value.(*ssa.Builtin); ok && b.Name() == "append" {
+					isAppend = true
+				}
+			}
+			w.check(P, "R02.7", "predicate result keeps the incoming order", st.Pos(), isPhi || isAppend, "the stored node-set is "+describe(v)+" (must be the accumulator itself)")
+		}
+	}
+	w.floor(P, "R02.7", 2)
+
 	// R02.6
 	w.perContextNode(P, f, r)
 }
@@ -437,6 +487,52 @@ func (w *World) handlerKind(h *ssa.Function, r *Roles) (string, string) {
 	if e0 != nil && e1 != nil && e0.Fn == e1.Fn {
 		before := (e0.Call.Block() == e1.Call.Block() && instrIndex(e0.Call) < instrIndex(e1.Call)) || (e0.Call.Block() != e1.Call.Block() && e0.Call.Block().Dominates(e1.Call.Block()))
 		if before {
+			// child 1 must be evaluated whenever child 0 succeeded: the only guard between them is the error test
+			for _, a := range guardAtoms(e1.Call.Block()) {
+				bo, ok := a.V.(*ssa.BinOp)
+				if ok && isNilConst(bo.Y) && bo.X == ssa.Value(e0.Call) {
+					continue
+				}
+				if ex, isEx := a.V.(*ssa.Extract); isEx {
+					if _, isTA := ex.Tuple.(*ssa.TypeAssert); isTA {
+						continue // a type test of the intermediate result (failing branch is an error return)
+					}
+				}
+				if _, dominatedByE0 := a.V.(ssa.Instruction); dominatedByE0 {
+					if in := a.V.(ssa.Instruction); in.Block() != nil && (e0.Call.Block().Dominates(in.Block())) && in != ssa.Instruction(e0.Call) {
+						// a condition computed after child 0 was evaluated other than its error
+						if instrAfter(e0.Call, in) {
+							return "unknown", "the evaluation of child 1 is conditional on " + describe(a.V) + " computed after child 0: the right-hand step is skipped for some left-hand results (e.g. a function used as a step is never called on an empty node-set)"
+						}
+					}
+				}
+			}
+			// no path from child 0's evaluation to a nil-error return that bypasses child 1
+			seen := map[*ssa.BasicBlock]bool{}
+			bypass := false
+			var walk func(b *ssa.BasicBlock, start int)
+			walk = func(b *ssa.BasicBlock, start int) {
+				for i := start; i < len(b.Instrs); i++ {
+					in := b.Instrs[i]
+					if in == ssa.Instruction(e1.Call) {
+						return
+					}
+					if ret, ok := in.(*ssa.Return); ok && len(ret.Results) == 1 && isNilConst(ret.Results[0]) {
+						bypass = true
+						return
+					}
+				}
+				for _, sc := range b.Succs {
+					if !seen[sc] {
+						seen[sc] = true
+						walk(sc, 0)
+					}
+				}
+			}
+			walk(e0.Call.Block(), instrIndex(e0.Call)+1)
+			if bypass {
+				return "unknown", "after child 0 was evaluated the function can return success without evaluating child 1: the right-hand step is skipped for some left-hand results (a function used as a step must still be called, e.g. on an empty node-set)"
+			}
 			return "dependent", "child 0 then child 1 in the handler's own context"
 		}
 		return "unknown", "child 1 is not evaluated after child 0"
@@ -447,9 +543,18 @@ func (w *World) handlerKind(h *ssa.Function, r *Roles) (string, string) {
 	return "unknown", fmt.Sprintf("%d child evaluations, not the two-children patterns", len(evals))
 }
 
+// instrAfter: b is executed after a (same block later, or in a block dominated by a's block).
+func instrAfter(a, b ssa.Instruction) bool {
+	if a.Block() == b.Block() {
+		return instrIndex(a) < instrIndex(b)
+	}
+	return a.Block().Dominates(b.Block())
+}
+
 func (w *World) perContextNode(P string, f *Facts, r *Roles) {
 	stepFamily := []string{"Step", "NodeTestAndPredicate", "StepWithAxisAndNodeTestAndPredicate", "RelativeLocationPathWithStep", "AbbreviatedRelativeLocationPath"}
 	found := false
+	badGuard := ""
 	var where token.Pos
 	for _, nt := range stepFamily {
 		h := f.Handlers[nt]
@@ -491,13 +596,64 @@ func (w *World) perContextNode(P string, f *Facts, r *Roles) {
 					}
 				}
 				if fromCopy && oneNode && usedInLoop {
-					found = true
+					// the per-node pass must not be conditional on anything but the production shape,
+					// the result being a node-set and its size
+					okGuards := true
+					for _, rr := range referrers(al) {
+						c, ok := rr.(*ssa.Call)
+						if !ok || !loops[c.Block()] {
+							continue
+						}
+						for _, a := range guardAtoms(c.Block()) {
+							if !plainStepGuard(a.V) {
+								okGuards = false
+								badGuard = describe(a.V)
+							}
+						}
+					}
+					if okGuards {
+						found = true
+					}
 				}
 			})
 		}
 	}
-	w.check(P, "R02.6", "step handlers evaluate predicates per context node", where, found, "no handler of the Step family evaluates the step once per context node: the axis is applied to the whole incoming node-set and predicates number the merged result (`//a/b[1]` selects one b in the whole document instead of the first b of every a)")
+	detail := "a handler of the Step family evaluates predicate-bearing steps once per context node (one-node context copies in a loop), conditional only on the production shape and the size of the incoming node-set"
+	if !found {
+		detail = "no handler of the Step family evaluates the step once per context node unconditionally: the axis is applied to the whole incoming node-set and predicates number the merged result (`//a/b[1]` selects one b in the whole document instead of the first b of every a)"
+		if badGuard != "" {
+			detail += "; the per-node pass exists but is conditional on " + badGuard
+		}
+	}
+	w.check(P, "R02.6", "step handlers evaluate predicates per context node", where, found, detail)
 	w.floor(P, "R02.6", 1)
+}
+
+// plainStepGuard: conditions under which the per-context-node pass may be skipped: tests of the child
+// nonterminal, of the result being a node-set, of its length, loop bounds and error tests.
+func plainStepGuard(v ssa.Value) bool {
+	switch x := v.(type) {
+	case *ssa.Extract:
+		_, isTA := x.Tuple.(*ssa.TypeAssert)
+		return isTA
+	case *ssa.BinOp:
+		if n, ok := types.Unalias(x.X.Type()).(*types.Named); ok && n.Obj().Name() == "NT" {
+			return true
+		}
+		if isLenOf(x.X, nil) || isLenOf(x.Y, nil) {
+			return true
+		}
+		if isNilConst(x.Y) || isNilConst(x.X) {
+			return true
+		}
+		if _, ok := x.X.(*ssa.Phi); ok {
+			return true
+		}
+		if bo, ok := x.X.(*ssa.BinOp); ok && bo.Op == token.ADD {
+			return true
+		}
+	}
+	return false
 }
 
 func checkC18(w *World) {
@@ -656,6 +812,7 @@ func checkC18(w *World) {
 		w.check(P, "R18.4", "function call receives the current context", h.Fn.Pos(), ok, fmt.Sprintf("the function value is called with the handler's own context: %v", ok))
 	}
 	w.floor(P, "R18.4", 1)
+	w.include(P, "C02", "R02.4") // steps thread the node-set left to right, every step is evaluated
 	w.perContextNode(P, f, r)
 	// re-label the shared obligation for this property
 	for _, o := range w.Obs {
@@ -667,15 +824,16 @@ func checkC18(w *World) {
 	w.floor(P, "R18.5", 1)
 }
 
-// selectorLocal: the selector's accumulator is only appended to / passed to collectors inside a loop over
-// the parameter and is never read (len, index, range) before the final normalisation.
+// selectorLocal: the selector treats every node of the incoming node-set independently: the parameter is only
+// ranged over, and no branch inside the loop depends on loop-carried state other than the range counter
+// (an accumulator may be appended to, but the decision what to collect from one context node must not
+// depend on the nodes processed before it: the incoming set may be in either document order).
 func selectorLocal(fn *ssa.Function) (bool, string) {
 	if len(fn.Params) != 1 {
 		return false, "unexpected signature"
 	}
 	ok := true
 	why := "the result is built by appending, per element of the incoming node-set, values computed from that element only"
-	// the parameter is only ranged over (len + index) — never passed whole to a collector
 	for _, rr := range referrers(fn.Params[0]) {
 		switch x := rr.(type) {
 		case *ssa.IndexAddr:
@@ -689,5 +847,46 @@ func selectorLocal(fn *ssa.Function) (bool, string) {
 			ok, why = false, fmt.Sprintf("the incoming node-set is used by %T", rr)
 		}
 	}
+	// loop-carried state
+	loops := loopBlocks(fn)
+	allInstrs(fn, func(in ssa.Instruction) {
+		ifi, isIf := in.(*ssa.If)
+		if !isIf || !loops[ifi.Block()] {
+			return
+		}
+		backSlice(ifi.Cond, func(v ssa.Value) bool {
+			phi, isPhi := v.(*ssa.Phi)
+			if !isPhi || !loops[phi.Block()] {
+				return true
+			}
+			if ascendingCounter(phi) || isCounterPhi(phi) {
+				return false
+			}
+			if _, isSlice := phi.Type().Underlying().(*types.Slice); isSlice {
+				return false
+			}
+			ok, why = false, "a branch inside the loop over the incoming node-set depends on state carried over from earlier context nodes (variable "+phi.Comment+"): which nodes are collected then depends on the order of the incoming set, which is descending after a reverse axis"
+			return false
+		})
+	})
 	return ok, why
+}
+
+// isCounterPhi: phi(-1|0, phi+1), the raw counter of a range loop.
+func isCounterPhi(phi *ssa.Phi) bool {
+	okInit, okStep := false, false
+	for _, e := range phi.Edges {
+		if k, ok := constInt(e); ok && (k == -1 || k == 0) {
+			okInit = true
+			continue
+		}
+		if bo, ok := e.(*ssa.BinOp); ok && bo.Op == token.ADD && bo.X == ssa.Value(phi) {
+			if k, ok := constInt(bo.Y); ok && k == 1 {
+				okStep = true
+				continue
+			}
+		}
+		return false
+	}
+	return okInit && okStep
 }
